@@ -212,7 +212,10 @@ def gen_world(rng, sweep=None):
         cob = 0x40000180 + 0x100 * num
         if rng.random() < 0.1 and sweep is None:
             cob |= 0x80000000
-        gen.add_tpdo(cfg, num, cob, typ, inh, ev, [gen.maplink(*m) for m in maps])
+        no_inh = sweep is None and rng.random() < 0.15      # a record without the optional inhibit entry: no inhibit time, everything else as stored
+        if no_inh:
+            inh = 0
+        gen.add_tpdo(cfg, num, cob, typ, inh, ev, [gen.maplink(*m) for m in maps], with_inhibit=not no_inh)
         tps.append(TP(num, cob + nid, typ, inh, ev, maps))
     # an asynchronous RPDO that writes some of the same objects: a value changed by a received PDO triggers the TPDO as well
     rmap = []
@@ -300,7 +303,7 @@ def run_history(res, exe, rng, first, sweep=None):
                 elif x < 0.58:
                     op = ("sdowr", rng.choice([k_ for k_ in objs if objs[k_][0] in (1, 2, 4)]))
                 elif x < 0.66:
-                    op = ("trig", rng.randrange(NT))
+                    op = ("trig", rng.randrange(NT)) if rng.random() < 0.85 else ("trigcb", rng.randrange(NT))
                 elif x < 0.72:
                     op = ("trigobj", rng.choice(list(objs)))
                 elif x < 0.84:
@@ -350,6 +353,23 @@ def run_history(res, exe, rng, first, sweep=None):
                 if op[1] < len(tps):
                     m.send(tps[op[1]], now, "trigger")
                 evs = sim.cmd("trigpdo %d" % op[1])
+            elif op[0] == "trigcb":
+                # API call from inside COPdoTransmit: while the frame of an event-driven TPDO goes out the application triggers the same
+                # TPDO again - with an inhibit time that is one more transmission when the inhibit time ends, without one it follows at once
+                k = op[1]
+                if k >= len(tps):
+                    continue
+                tp = tps[k]
+                if tp.typ < 254 or not tp.active or m.mode != OP or (tp.inh_until is not None and now < tp.inh_until):
+                    continue
+                script.append("trigger TPDO%d @%d, triggered again inside COPdoTransmit" % (k, now))
+                m.send(tp, now, "trigger")
+                m.send(tp, now, "trigger")
+                sim.cmd("pdotxcb %d" % k)
+                evs = sim.cmd("trigpdo %d" % k)
+                if len(S.cbs(evs, "pdotxtrig")) != 1:
+                    fail("harness/txcb", "COPdoTransmit was not called for the triggered TPDO%d" % k); return
+                res.counters["triggers_inside_transmit_callback"] += 1
             elif op[0] == "trigobj":
                 if any(tp.typ <= 240 and any((i_, s_) == op[1] for (i_, s_, b_) in tp.maps) for tp in tps):
                     continue
